@@ -263,7 +263,7 @@ func run(c *vf.Ctx) {
 		}
 		return
 	}
-	c.SetRule("one evaluation = one oracle decision on the real daemon: (a) at every quiescent point of a scripted scenario (all goroutines parked, shutdown goroutine in WaitGroup.Wait or gone) each live worker's ctx.Err() is compared with 'every worker of strictly higher order has returned' (both directions), ShutdownAndWait/Run callers that returned are checked against unreturned workers, registrations of running names / after shutdown must be refused, a BackgroundWorker call gated at daemon.bgworker.afterStoppedCheck while shutdown runs must be refused or its worker cancelled and waited for; (b) per BackgroundWorker call of the free-running stress (plain and -race; every third iteration is the 'worker exit vs re-registration' workload: callers spin on BackgroundWorker(sameName) while the old handler returns, 2-5 names, up to 3 generations, optional Run, shutdown after or during): accepted workers returned before ShutdownAndWait did (logical clock), cancelled workers see no cancelled unreturned lower-order worker. Configurations come from a per-index seed (orders from a pool with ties, negatives, gaps, int32 and platform-int boundary values, a third of the pools with a pair more than math.MaxInt apart; early finishers; re-registration; 1-4 shutdown callers; Run). distinct_nontrivial counts distinct (order multiset at shutdown, gate-release order, variant set) triples of started daemons with >= 2 distinct orders and >= 1 gate release")
+	c.SetRule("one evaluation = one oracle decision on the real daemon: (a) at every quiescent point of a scripted scenario (all goroutines parked, shutdown goroutine in WaitGroup.Wait or gone) each live worker's ctx.Err() is compared with 'every worker of strictly higher order has returned' (both directions), ShutdownAndWait/Run callers that returned are checked against unreturned workers, registrations of running names / after shutdown must be refused, a BackgroundWorker call gated at daemon.bgworker.afterStoppedCheck while shutdown runs must be refused or its worker cancelled and waited for; (b) per BackgroundWorker call of the free-running stress (plain and -race; every sixth iteration is the 'shutdown requested by the k-th started worker while Start launches 3/50/2000 workers' workload, every third iteration is the 'worker exit vs re-registration' workload: callers spin on BackgroundWorker(sameName) while the old handler returns, 2-5 names, up to 3 generations, optional Run, shutdown after or during): accepted workers returned before ShutdownAndWait did (logical clock), cancelled workers see no cancelled unreturned lower-order worker. Configurations come from a per-index seed (orders from a pool with ties, negatives, gaps, int32 and platform-int boundary values, a third of the pools with a pair more than math.MaxInt apart; early finishers; re-registration; 1-4 shutdown callers; Run). distinct_nontrivial counts distinct (order multiset at shutdown, gate-release order, variant set) triples of started daemons with >= 2 distinct orders and >= 1 gate release")
 	nCfg := c.Pick(1200, 20000)
 	procs := runtime.NumCPU() / 2
 	if procs < 2 {
@@ -314,6 +314,9 @@ func run(c *vf.Ctx) {
 	c.Require("stress_iterations", (plainBatches*plainIters+raceBatches*raceIters)*4/5) // a child killed by a defect loses the iterations since its last flush
 	c.Require("stress_calls_overlapping_shutdown", 2000)
 	c.Require("rereg_iterations", (plainBatches*plainIters+raceBatches*raceIters)/4)
+	c.Require("startup_iterations", (plainBatches*plainIters+raceBatches*raceIters)/8)
+	c.Require("startup_iterations_n2000", c.Pick(30, 600))
+	c.Require("startup_shutdown_requested_while_start_in_progress", c.Pick(150, 3000)) // the k-th started handler asked for the shutdown before Start() had returned
 	c.Require("rereg_accepted", 10000)
 	c.Require("rereg_attempts_while_old_worker_exiting", 50) // refusals observed after the old handler had returned: the call raced the exit path
 	c.Require("rereg_accepted_early", 20)                    // ... and the retry was then accepted
